@@ -73,6 +73,10 @@ class Scheduler(object):
             raise Killed()
         return True
 
+    def wait_until(self, name, pred):
+        """Park the calling managed thread until pred() holds (evaluated by the scheduler between steps)."""
+        self.yield_point(("wait", name, pred))
+
     def spawn(self, name, fn):
         t = MThread(self, name, fn)
         self.threads.append(t)
@@ -87,9 +91,11 @@ class Scheduler(object):
             return False
         k = op[0]
         if k == "acquire":
-            return not op[2].held
+            return not op[2].held or op[2].owner == t.name
         if k == "get":
             return len(op[2].items) > 0
+        if k == "wait":
+            return bool(op[2]())       # harness threads park on a predicate instead of spinning
         return True
 
     def runnable(self):
@@ -111,9 +117,9 @@ class Scheduler(object):
         if op is None:
             return None
         k = op[0]
-        if k in ("acquire", "release"):
+        if k in ("acquire", "release", "tryacquire"):
             return (k, op[1])
-        if k in ("put", "get", "qsize"):
+        if k in ("put", "get", "qsize", "wait"):
             return (k, op[1])
         return tuple(str(x) for x in op[:2])
 
@@ -148,6 +154,10 @@ class Scheduler(object):
         self.nlocks += 1
         return CoopLock(self, name or "lock%d" % self.nlocks)
 
+    def RLock(self, name=None):
+        self.nlocks += 1
+        return CoopRLock(self, name or "rlock%d" % self.nlocks)
+
     def Queue(self, name=None):
         self.nlocks += 1
         return CoopQueue(self, name or "queue%d" % self.nlocks)
@@ -165,6 +175,14 @@ class CoopLock(object):
             if self.held:
                 raise Deadlock("unmanaged acquire of held lock %s" % self.name)
             self.held, self.owner = True, "<main>"
+            return True
+        if not blocking or (timeout is not None and timeout >= 0):
+            # a non-blocking / timed acquire: always schedulable; it fails (times out) if the lock is held when it runs -
+            # a timeout may expire whenever the holder is slow, so every such outcome is explored
+            s.yield_point(("tryacquire", self.name, self))
+            if self.held:
+                return False
+            self.held, self.owner = True, s.me().name
             return True
         s.yield_point(("acquire", self.name, self))
         assert not self.held
@@ -186,6 +204,33 @@ class CoopLock(object):
 
     def __exit__(self, *a):
         self.release()
+
+
+class CoopRLock(CoopLock):
+    """Re-entrant variant: the owning thread may acquire again without blocking."""
+    def __init__(self, sched, name):
+        CoopLock.__init__(self, sched, name)
+        self.count = 0
+
+    def acquire(self, blocking=True, timeout=-1):
+        me = self.sched.me()
+        who = me.name if me else "<main>"
+        if self.held and self.owner == who:
+            self.count += 1
+            return True
+        r = CoopLock.acquire(self, blocking, timeout)
+        if r:
+            self.count = 1
+        return r
+
+    def release(self):
+        if self.count > 1:
+            self.count -= 1
+            return
+        self.count = 0
+        CoopLock.release(self)
+
+    __enter__ = acquire
 
 
 class CoopQueue(object):
@@ -239,7 +284,7 @@ class Installation(object):
 
         def queue_factory(*a, **k):
             return sched.Queue()
-        th = shim_module(_th, Lock=lock_factory)
+        th = shim_module(_th, Lock=lock_factory, RLock=lambda: sched.RLock())
         qm = shim_module(queue, Queue=queue_factory)
         self._set(L, "threading", th)
         self._set(NL, "threading", th)
